@@ -1,10 +1,15 @@
 /-
   Driver for the `fmap` suite (C11): requests on the same session as `forest` (`FState`),
-  first word `fmap`: the entry API and `get_mut` of the mutable node map, `get` / `get_node`,
-  and a full read of a view with the entry nodes' labels.
+  first word `fmap`: `insert` / `remove` / `get_mut` and the entry API of the mutable node map,
+  `get` / `get_node` / `contains_key`, and a full read of a view with the entry nodes' labels.
+
+  Every call is executed as a step of the history type of the theorems (`Fmap.MapCall.run`,
+  Model/FmapRet.lean) and answered with its outcome followed by the value it RETURNS
+  (`Fmap.Ret`, `showRet`), which the harness prints from the real crate.
 -/
 import XotModel.Model.FmapEntry
 import XotModel.Model.FmapSpec2
+import XotModel.Model.FmapRet
 import XotModel.Driver.Forest
 
 namespace XotModel.Driver
@@ -14,16 +19,6 @@ def entryValue? (k : Forest.MapKind) (key val : String) : Option Value :=
   match k with
   | .attributes => do some (.attribute (← key.toNat?) (← decStr val))
   | .namespaces => do some (.namespace (← key.toNat?) (← val.toNat?))
-
-/-- The closure given to `and_modify`: attributes `|v| v.push_str(arg)`, namespaces `|v| *v = arg`. -/
-def modifier? (k : Forest.MapKind) (arg : String) : Option (Value → Value) :=
-  match k with
-  | .attributes => do
-      let sfx ← decStr arg
-      some fun v => match v with | .attribute n s => .attribute n (s ++ sfx) | v => v
-  | .namespaces => do
-      let ns ← arg.toNat?
-      some fun v => match v with | .namespace p _ => .namespace p ns | v => v
 
 def showPayload : Value → String
   | .attribute _ v => encStr v
@@ -54,86 +49,111 @@ def showFmapIter (s : FState) (k : Forest.MapKind) (h : Nat) : String :=
   s!"iter={showFmapPairs (Fmap.mapIter s.forest k h)} vec={showFmapPairs (Fmap.mapToVec s.forest k h)} " ++
   s!"hm={showFmapPairs (Fmap.mapToHashmap s.forest k h)}"
 
+/-- The closure given to `and_modify` as a function on the stored `String` / `NamespaceId`
+    (`Fmap.liftP` makes it the function on the entry value): attributes `|v| v.push_str(arg)`,
+    namespaces `|v| *v = arg`. -/
+def modifierP? (k : Forest.MapKind) (arg : String) : Option (Fmap.Payload → Fmap.Payload) :=
+  match k with
+  | .attributes => do
+      let sfx ← decStr arg
+      some fun p => match p with | .str s => .str (s ++ sfx) | p => p
+  | .namespaces => do
+      let ns ← arg.toNat?
+      some fun _ => .ns ns
+
+/-- The returned value of a call (`Fmap.Ret`): nothing for `()`, `-` for `None`, a payload, the
+    label of a node, `0` / `1`, a key. -/
+def showRetW (s : FState) : Fmap.Ret → String
+  | .unit => ""
+  | .value none => "-"
+  | .value (some p) => showFmapPayload p
+  | .node none => "-"
+  | .node (some h) => (match s.labelOf h with | some l => toString l | none => "?")
+  | .bool b => if b then "1" else "0"
+  | .key k => toString k
+
+def showRet (s : FState) (r : Fmap.Ret) : String :=
+  match r with
+  | .unit => ""
+  | r => " " ++ showRetW s r
+
 def handleFmap (s : FState) (ws : List String) : Option (FState × String) :=
   let node (w : String) : Option Nat := do s.handleOf (← w.toNat?)
-  let fin (f : Forest) (r : String) : Option (FState × String) :=
-    some (({ s with forest := f }).relabel, r)
+  /- one call of the history type `Fmap.MapCall`: outcome, then the value it returns -/
+  let call (c : Fmap.MapCall) : Option (FState × String) :=
+    let (f, r, ret) := c.run s.forest
+    let s' := ({ s with forest := f }).relabel
+    match r with
+    | .ok => some (s', "ok" ++ showRet s' ret)
+    | r => some (s', showRes r)
   match ws with
+  | ["insert", kind, a, key, val] => do
+      let k ← mapKind? kind
+      call (.base (.insert k (← node a) (← entryValue? k key val)))
+  | ["remove", kind, a, key] => do
+      call (.base (.remove (← mapKind? kind) (← node a) (← key.toNat?)))
   | ["entry_or_insert", kind, a, key, val] => do
       let k ← mapKind? kind
-      let (f, r) := s.forest.entryOrInsert k (← node a) (← entryValue? k key val)
-      fin f (showRes r)
+      call (.base (.entryOrInsert k (← node a) (← entryValue? k key val)))
   | ["entry_or_insert_with", kind, a, key, val] => do
       -- answer: did the closure run, and the value behind the returned `&mut V`
       let k ← mapKind? kind
       let h ← node a
       let d ← entryValue? k key val
-      let (f, r, called) := s.forest.entryOrInsertWith k h (Forest.entryKey d) (fun _ => d)
+      let called := (s.forest.entryOrInsertWith k h (Forest.entryKey d) (fun _ => d)).2.2
+      let (f, r, ret) := (Fmap.MapCall.entryOrInsertWith k h (Forest.entryKey d) (fun _ => d)).run s.forest
+      let s' := ({ s with forest := f }).relabel
       match r with
-      | .ok =>
-        let seen := match f.mapGet k h (Forest.entryKey d) with | some v => showPayload v | none => "?"
-        fin f s!"ok {if called then 1 else 0} {seen}"
-      | r => fin f (showRes r)
+      | .ok => some (s', s!"ok {if called then 1 else 0}" ++ showRet s' ret)
+      | r => some (s', showRes r)
   | ["occupied_into_mut", kind, a, key, val] => do
       let k ← mapKind? kind
-      let (f, r, found) := s.forest.occupiedIntoMutSet k (← node a) (← key.toNat?) (← entryValue? k key val)
-      match r with
-      | .ok => fin f (if found then "ok 1" else "ok 0")
-      | r => fin f (showRes r)
+      call (.occupiedIntoMutSet k (← node a) (← key.toNat?) (← entryValue? k key val))
+  | ["occupied_get_mut", kind, a, key, val] => do
+      let k ← mapKind? kind
+      call (.occupiedGetMutSet k (← node a) (← key.toNat?) (← entryValue? k key val))
   | ["entry_peek", kind, a, key] => do
       -- `Entry::key`, then `OccupiedEntry::key` / `get` / `get_mut` (each `…(self.key).unwrap()`) or `VacantEntry::key`
       let k ← mapKind? kind
       let h ← node a
       let key ← key.toNat?
-      if !s.forest.isElement h then some (s, "panic") else
-      match s.forest.mapEntry k h key with
-      | .occupied key' =>
-        (match s.forest.occGetMut k h key', s.forest.mapGet k h key' with
-         | .ok, some v => some (s, s!"occ {key} {key'} {showPayload v} {showPayload v}")
-         | _, _ => some (s, "panic"))
-      | .vacant key' => some (s, s!"vac {key} {key'}")
+      match (Fmap.MapCall.peekKey k h key).run s.forest, (Fmap.MapCall.occupiedGet k h key).run s.forest with
+      | (_, .ok, .key key'), (_, .ok, .value (some p)) =>
+        some (s, s!"occ {key'} {key'} {showFmapPayload p} {showFmapPayload p}")
+      | (_, .ok, .key key'), (_, .ok, .value none) => some (s, s!"vac {key'} {key'}")
+      | _, _ => some (s, "panic")
   | ["entry_or_default", a, key] => do
-      let (f, r) := s.forest.entryOrDefault (← node a) (← key.toNat?)
-      fin f (showRes r)
+      call (.base (.entryOrDefault (← node a) (← key.toNat?)))
   | ["entry_and_modify", kind, a, key, arg] => do
       let k ← mapKind? kind
-      let (f, r, _) := s.forest.entryAndModify k (← node a) (← key.toNat?) (← modifier? k arg)
-      fin f (showRes r)
+      call (.base (.entryAndModify k (← node a) (← key.toNat?) (← modifierP? k arg)))
   | ["entry_and_modify_or_insert", kind, a, key, arg, val] => do
       let k ← mapKind? kind
-      let (f, r) := s.forest.entryAndModifyOrInsert k (← node a) (← entryValue? k key val) (← modifier? k arg)
-      fin f (showRes r)
+      call (.base (.entryAndModifyOrInsert k (← node a) (← entryValue? k key val) (← modifierP? k arg)))
   | ["entry_insert", kind, a, key, val] => do
       let k ← mapKind? kind
-      let (f, r) := s.forest.entryInsert k (← node a) (← entryValue? k key val)
-      fin f (showRes r)
+      call (.base (.entryInsert k (← node a) (← entryValue? k key val)))
   | ["occupied_insert", kind, a, key, val] => do
       let k ← mapKind? kind
-      let (f, r) := s.forest.occupiedInsert k (← node a) (← entryValue? k key val)
-      fin f (showRes r)
+      call (.base (.occupiedInsert k (← node a) (← entryValue? k key val)))
   | ["vacant_insert", kind, a, key, val] => do
       let k ← mapKind? kind
-      let (f, r) := s.forest.vacantInsert k (← node a) (← entryValue? k key val)
-      fin f (showRes r)
+      call (.base (.vacantInsert k (← node a) (← entryValue? k key val)))
   | ["map_iter_ro", kind, a] => do some (s, showFmapIter s (← mapKind? kind) (← node a))
   | ["map_iter_mut", kind, a] => do some (s, showFmapIter s (← mapKind? kind) (← node a))
   | ["entry_remove", kind, a, key] => do
-      let k ← mapKind? kind
-      let (f, r) := s.forest.entryRemove k (← node a) (← key.toNat?)
-      fin f (showRes r)
+      call (.base (.entryRemove (← mapKind? kind) (← node a) (← key.toNat?)))
   | ["get_mut_set", kind, a, key, val] => do
       let k ← mapKind? kind
-      let (f, r, found) := s.forest.mapGetMutSet k (← node a) (← key.toNat?) (← entryValue? k key val)
-      match r with
-      | .ok => fin f (if found then "ok 1" else "ok 0")
-      | r => fin f (showRes r)
+      call (.base (.getMutSet k (← node a) (← key.toNat?) (← entryValue? k key val)))
   | ["get", kind, a, key] => do
+      -- `get_node(key)`, `get(key)`, `contains_key(key)` of the read-only view
       let k ← mapKind? kind
-      match s.forest.mapGetNode k (← node a) (← key.toNat?) with
-      | none => some (s, "none")
-      | some n =>
-        let l := match s.labelOf n.handle with | some l => toString l | none => "?"
-        some (s, s!"{l} {showPayload n.value}")
+      let h ← node a
+      let key ← key.toNat?
+      match (Fmap.MapCall.getNode k h key).run s.forest, (Fmap.MapCall.get k h key).run s.forest,
+          (Fmap.MapCall.containsKey k h key).run s.forest with
+      | (_, _, r1), (_, _, r2), (_, _, r3) => some (s, String.intercalate " " [showRetW s r1, showRetW s r2, showRetW s r3])
   | ["map_full", kind, a] => do some (s, showMapFull s (← mapKind? kind) (← node a))
   | _ => none
 
